@@ -60,11 +60,6 @@ theorem serElem_head (ll : Nat) (pns : List (Str × Str)) (isRoot : Bool) (inden
     · exact ⟨_, rfl⟩
     · exact ⟨_, rfl⟩
 
-theorem alwaysExpanded_false_of_ns {tag : Str} (h : (splitName tag).1 ≠ []) : alwaysExpanded tag = false := by
-  have := splitName_ns h
-  rw [this]
-  simp [alwaysExpanded, clark]
-
 /-- the start tag of a well-formed element is one token -/
 theorem Lexes_stag {pns : List (Str × Str)} (hinv : NsInv pns) {tag nsd attrs text tail kids}
     (hwf : wfElem pns (.mk tag nsd attrs text tail kids) = true)
